@@ -41,6 +41,11 @@ theorem flatten_be2_length (fs : List Nat) :
 
 /-! ### Parse -/
 
+theorem chkSlice_eq_of_goSlice_ok {b : Bytes} {lo hi : Nat} {x : Bytes}
+    (h : goSlice b lo hi = .ok x) : chkSlice b lo hi = .ok x := by
+  unfold chkSlice
+  rw [h]
+
 /-- 1. `bytes.Index` finds the terminator of a C string -/
 theorem indexZero_append (s r : Bytes) (h : NoZero s) : indexZero (s ++ 0 :: r) = some s.length := by
   induction s with
@@ -63,9 +68,9 @@ theorem readParams_flatten (ps : List Bytes) (hps : ∀ p ∈ ps, p.length = 4) 
       simp [List.append_assoc]
     have e' : pre ++ (p :: ps).flatten ++ post = (pre ++ p) ++ ps.flatten ++ post := by
       simp [List.append_assoc]
-    have hs : goSlice (pre ++ (p :: ps).flatten ++ post) pos (pos + 4) = .ok p := by
+    have hs : chkSlice (pre ++ (p :: ps).flatten ++ post) pos (pos + 4) = .ok p := by
       rw [e]
-      exact goSlice_mid pre p _ pos (pos + 4) hpos (by omega)
+      exact chkSlice_eq_of_goSlice_ok (goSlice_mid pre p _ pos (pos + 4) hpos (by omega))
     have hr : readParams (pre ++ (p :: ps).flatten ++ post) ps.length (pos + 4) = .ok ps := by
       rw [e']
       exact ih (fun q hq => hps q (List.mem_cons_of_mem _ hq)) (pre ++ p) (pos + 4)
@@ -121,10 +126,10 @@ theorem newParsePacket_encodeParse (name query : Bytes) (oids : List Nat) (hn : 
       (query.length + (name.length + 1) + 1) = .ok (query ++ [0]) := by
     rw [e3]
     exact goSlice_mid _ _ _ _ _ (by simp) (by simp; omega)
-  have hnum : goSlice (encodeParse name query oids) (query.length + (name.length + 1) + 1)
+  have hnum : chkSlice (encodeParse name query oids) (query.length + (name.length + 1) + 1)
       (query.length + (name.length + 1) + 1 + 2) = .ok (beBytes 2 oids.length) := by
     rw [e4]
-    exact goSlice_mid _ _ _ _ _ (by simp; omega) (by simp; omega)
+    exact chkSlice_eq_of_goSlice_ok (goSlice_mid _ _ _ _ _ (by simp; omega) (by simp; omega))
   have hpar : readParams (encodeParse name query oids) oids.length
       (query.length + (name.length + 1) + 1 + 2) = .ok (oids.map (beBytes 4)) := by
     rw [e5]
@@ -612,6 +617,182 @@ theorem rewriteBind_marshal (f : Nat → Bytes → Bytes)
       marshal p = encodeMsg 66 (encodeBind portal stmt (canonFormats pf pv.length) (mapRow f 0 pv) rf) :=
   ⟨_, rewriteBind_wellformed f g hg portal stmt lb pf pv rf hp hs hpf hrf hpv hpv' hne hfmt hsz,
     marshal_encodeMsg 66 _ (by decide)⟩
+
+/-! ### no panic, whatever the input -/
+
+theorem Out.bind_ne_panic {α β : Type} {x : Out α} {f : α → Out β} (hx : x ≠ .panic)
+    (hf : ∀ a, f a ≠ .panic) : (x >>= f) ≠ .panic := by
+  cases x with
+  | ok a => exact hf a
+  | err => intro h; cases h
+  | panic => exact absurd rfl hx
+
+theorem goSlice_ok_of_le (b : Bytes) (lo hi : Nat) (h : lo ≤ hi ∧ hi ≤ b.length) :
+    goSlice b lo hi = .ok ((b.take hi).drop lo) := by
+  unfold goSlice
+  rw [if_pos h]
+
+theorem chkSlice_no_panic (b : Bytes) (lo hi : Nat) : chkSlice b lo hi ≠ .panic := by
+  unfold chkSlice
+  cases h : goSlice b lo hi <;> simp
+
+theorem readParams_no_panic (data : Bytes) (k pos : Nat) : readParams data k pos ≠ .panic := by
+  induction k generalizing pos with
+  | zero => simp [readParams]
+  | succ k ih =>
+    unfold readParams
+    refine Out.bind_ne_panic (chkSlice_no_panic _ _ _) (fun p => ?_)
+    refine Out.bind_ne_panic (ih _) (fun r => ?_)
+    simp
+
+theorem indexZero_lt {data : Bytes} {i : Nat} (h : indexZero data = some i) : i < data.length := by
+  induction data generalizing i with
+  | nil => cases h
+  | cons b r ih =>
+    unfold indexZero at h
+    split at h
+    · cases h; simp
+    · cases hr : indexZero r with
+      | none => rw [hr] at h; cases h
+      | some j =>
+        rw [hr] at h
+        cases h
+        have := ih hr
+        simp; omega
+
+theorem newParsePacket_no_panic (data : Bytes) : newParsePacket data ≠ .panic := by
+  cases h0 : indexZero data with
+  | none => simp [newParsePacket, h0]
+  | some i0 =>
+    have l0 := indexZero_lt h0
+    cases h1 : indexZero (data.drop (i0 + 1)) with
+    | none => simp [newParsePacket, h0, h1]
+    | some i1 =>
+      have l1 := indexZero_lt h1
+      rw [List.length_drop] at l1
+      simp only [newParsePacket, h0, h1]
+      rw [goSlice_ok_of_le data 0 (i0 + 1) (by omega),
+        goSlice_ok_of_le data (i0 + 1) (i1 + (i0 + 1) + 1) (by omega)]
+      simp only [Out.bind_ok]
+      refine Out.bind_ne_panic (chkSlice_no_panic _ _ _) (fun np => ?_)
+      split
+      · exact Out.bind_ne_panic (readParams_no_panic _ _ _) (fun ps => by simp)
+      · simp
+
+theorem replaceParseQuery_no_panic (p : Packet) (q : Bytes) : replaceParseQuery p q ≠ .panic := by
+  have h := newParsePacket_no_panic p.body
+  unfold replaceParseQuery
+  cases hc : newParsePacket p.body with
+  | ok pp => simp
+  | err => simp
+  | panic => exact absurd hc h
+
+theorem readString_no_panic (data : Bytes) : readString data ≠ .panic := by
+  unfold readString
+  split <;> simp
+
+theorem readUint16Array_no_panic (data : Bytes) : readUint16Array data ≠ .panic := by
+  unfold readUint16Array
+  split
+  · simp
+  · simp only []
+    split <;> simp
+
+theorem readParamsArr_no_panic (k : Nat) (s : Bytes) : readParamsArr k s ≠ .panic := by
+  induction k generalizing s with
+  | zero => simp [readParamsArr]
+  | succ k ih =>
+    simp only [readParamsArr]
+    split
+    · simp
+    · split
+      · exact Out.bind_ne_panic (ih _) (fun a => by obtain ⟨r, rest⟩ := a; simp)
+      · split
+        · simp
+        · exact Out.bind_ne_panic (ih _) (fun a => by obtain ⟨r, rest⟩ := a; simp)
+
+theorem readParameterArray_no_panic (data : Bytes) : readParameterArray data ≠ .panic := by
+  unfold readParameterArray
+  split
+  · simp
+  · exact readParamsArr_no_panic _ _
+
+theorem newBindPacket_no_panic (data : Bytes) : newBindPacket data ≠ .panic := by
+  unfold newBindPacket
+  refine Out.bind_ne_panic (readString_no_panic _) (fun a => ?_)
+  obtain ⟨portal, d1⟩ := a
+  refine Out.bind_ne_panic (readString_no_panic _) (fun a => ?_)
+  obtain ⟨stmt, d2⟩ := a
+  refine Out.bind_ne_panic (readUint16Array_no_panic _) (fun a => ?_)
+  obtain ⟨pf, d3⟩ := a
+  refine Out.bind_ne_panic (readParameterArray_no_panic _) (fun a => ?_)
+  obtain ⟨pv, d4⟩ := a
+  refine Out.bind_ne_panic (readUint16Array_no_panic _) (fun a => ?_)
+  obtain ⟨rf, d5⟩ := a
+  simp
+
+theorem writeUint16Array_no_panic (vs : List Nat) : writeUint16Array vs ≠ .panic := by
+  unfold writeUint16Array
+  split <;> simp
+
+theorem writeParameterArray_no_panic (ps : List (Option Bytes)) : writeParameterArray ps ≠ .panic := by
+  unfold writeParameterArray
+  split
+  · simp
+  · split <;> simp
+
+theorem BindPacket.marshal_no_panic (p : BindPacket) : p.marshal ≠ .panic := by
+  unfold BindPacket.marshal
+  refine Out.bind_ne_panic (writeUint16Array_no_panic _) (fun a => ?_)
+  refine Out.bind_ne_panic (writeParameterArray_no_panic _) (fun b => ?_)
+  refine Out.bind_ne_panic (writeUint16Array_no_panic _) (fun c => ?_)
+  simp
+
+theorem getParameters_go_no_panic (p : BindPacket) (i : Nat) (vs : List (Option Bytes)) :
+    BindPacket.getParameters.go p i vs ≠ .panic := by
+  induction vs generalizing i with
+  | nil => simp [BindPacket.getParameters.go]
+  | cons v vs ih =>
+    unfold BindPacket.getParameters.go
+    refine Out.bind_ne_panic (formatByIndex_no_panic _ _) (fun f => ?_)
+    refine Out.bind_ne_panic (ih _) (fun r => ?_)
+    simp
+
+theorem getParameters_no_panic (p : BindPacket) : p.getParameters ≠ .panic := by
+  unfold BindPacket.getParameters
+  exact getParameters_go_no_panic p 0 _
+
+theorem rewriteBind_go_no_panic (g : Nat → Bool → Option Bytes → Out (Option Bytes))
+    (hg : ∀ i b v, g i b v ≠ .panic) (i : Nat) (ps : List (Bool × Option Bytes)) :
+    rewriteBind.go g i ps ≠ .panic := by
+  induction ps generalizing i with
+  | nil => simp [rewriteBind.go]
+  | cons x ps ih =>
+    obtain ⟨f, v⟩ := x
+    unfold rewriteBind.go
+    refine Out.bind_ne_panic (hg _ _ _) (fun v' => ?_)
+    refine Out.bind_ne_panic (ih _) (fun r => ?_)
+    simp
+
+/-- the Bind handling never panics, whatever the packet, as long as the observers do not -/
+theorem rewriteBind_no_panic (g : Nat → Bool → Option Bytes → Out (Option Bytes))
+    (hg : ∀ i b v, g i b v ≠ .panic) (p : Packet) : rewriteBind g p ≠ .panic := by
+  unfold rewriteBind
+  refine Out.bind_ne_panic (newBindPacket_no_panic _) (fun bp => ?_)
+  cases h1 : bp.getParameters with
+  | panic => exact absurd h1 (getParameters_no_panic bp)
+  | err => simp
+  | ok params =>
+    simp only []
+    cases h2 : rewriteBind.go g 0 params with
+    | panic => exact absurd h2 (rewriteBind_go_no_panic g hg 0 params)
+    | err => simp
+    | ok params' =>
+      simp only []
+      cases h3 : (bp.setParameters params').marshal with
+      | panic => exact absurd h3 (BindPacket.marshal_no_panic _)
+      | err => simp
+      | ok body => simp
 
 /-! ### sanity checks -/
 
